@@ -80,12 +80,12 @@ func timeRound(a stime, d value, mode string) stime {
 }
 
 func symNow() value {
+	if !E.SymClock {
+		return stime{ns: int64(1600000000000000000)}
+	}
 	if E.Replay != nil {
 		v, _ := E.replayVal("now")
 		return mkTime(int64(parseHex(v)))
-	}
-	if !E.SymClock {
-		return stime{ns: int64(1600000000000000000)}
 	}
 	t := sym{E.input("now", bvSort(64), 64, "bv"), types.Int64}
 	facts[t.t] = &fact{hasRange: true, lo: timeLo, hi: timeHi - 1}
